@@ -20,7 +20,7 @@ def C(ids, voters, learners, **kw):
 
 # name -> (base cfg, overrides, cluster, properties it is expected to break)
 ABLATIONS = {
- "CandidateIgnoresPreVoteResp": ("MC_prevote", {"MaxDrops": 0, "QuiescentTicks": "FALSE", "CheckQuorumOn": "FALSE"}, C([1,2,3],[1,2,3],[],pre_vote=True), ["C02", "C01", "C05"], ["C02.OneLeaderPerTerm"]),
+ "CandidateIgnoresPreVoteResp": ("MC_prevote", {"MaxDrops": 0, "QuiescentTicks": "FALSE", "MaxTerm": 1, "MaxNet": 6, "MaxDepth": 50}, C([1,2,3],[1,2,3],[],pre_vote=True,check_quorum=True), ["C02", "C01", "C05"], ["C02.OneLeaderPerTerm"]),
  "TransferRespectsCastVote@C02": ("MC_transfer", {"TickNodes": "{1, 3}", "MaxTerm": 2, "MaxDrops": 0, "TransferTargets": "{2}", "QuiescentTicks": "FALSE"}, C([1,2,3],[1,2,3],[]), ["C02"], ["C02.OneLeaderPerTerm"]),
  "MustSyncOnVoteChange@change": ("MC_change", {"MaxTerm": 2, "MaxProposals": 1, "MaxDrops": 2, "MaxLog": 3, "TickNodes": "{1, 2, 3}", "QuiescentTicks": "FALSE"}, C([1,2,3],[1,2,3],[]), ["C07"], ["C07.MustSync"]),
  "PreVoteGrantNeverBumpsTerm": ("MC_prevote", {"MaxDrops": 1}, C([1,2,3],[1,2,3],[],pre_vote=True,check_quorum=True), ["C16"]),
